@@ -63,7 +63,8 @@ Definition ns_of (ks : list string) : ns := map (fun k => (k, dummy)) ks.
 (* the step agrees with the model of the repaired code: the site builds the segments the model says, hands the Module's
    current namespace to flatname, and the name flatname returns (model = implementation) is the name inserted *)
 Definition ev_ok (e : c05_event) : bool :=
-  ev_hasflat e && slist_eqb (site_segs (ev_site e)) (ev_segs e) && (ev_maxlen e =? flatname_maxlen) &&
+  (* the segments are compared JOINED: how a site splits the plain name into segments is not observable in any name *)
+  ev_hasflat e && String.eqb (join_us (site_segs (ev_site e))) (join_us (ev_segs e)) && (ev_maxlen e =? flatname_maxlen) &&
   match ev_avoid e with
   | None => false
   | Some a =>
